@@ -34,3 +34,10 @@ void h_sock_rele(void) { nni_sock *s; VP_HAVOC_GHOSTS(); nni_sock_rele(s); VP_CA
 void h_ctx_rele(void) { nni_ctx *c; VP_HAVOC_GHOSTS(); nni_ctx_rele(c); VP_CANARY(); }
 void h_ctx_close(void) { nni_ctx *c; VP_HAVOC_GHOSTS(); nni_ctx_close(c); VP_CANARY(); }
 void h_ctx_open(void) { nni_ctx **cp; nni_sock *s; VP_HAVOC_GHOSTS(); nni_ctx_open(cp, s); VP_CANARY(); }
+void h_sock_open(void) { nni_sock **sp; const nni_proto *pr; VP_HAVOC_GHOSTS(); nni_sock_open(sp, pr); VP_CANARY(); }
+/* lemma harness (no function under contract): the static initialisers of the id maps of socket.c fix the documented range 1..0x7fffffff */
+void h_id_ranges(void) {
+	__CPROVER_assert(sock_ids.id_min_val == 1 && sock_ids.id_max_val == 0x7fffffff && sock_ids.id_static, "sock_ids: range 1..0x7fffffff");
+	__CPROVER_assert(ctx_ids.id_min_val == 1 && ctx_ids.id_max_val == 0x7fffffff && ctx_ids.id_static, "ctx_ids: range 1..0x7fffffff");
+	VP_CANARY();
+}
